@@ -5,7 +5,8 @@ import binlib
 import textgen
 import c02
 
-THEOREMS = ["C05_copy_loop_values", "C05_copy_tokens_by_text"]
+THEOREMS = ["C05_copy_loop_values", "C05_copy_tokens_by_text", "C05_binary_to_binary", "C05_copy_to_binary", "C05_binary_writer_by_text", "C05_obs_of_values_normal", "C05_binary_to_binary_ex", "C05_binary_to_text_partial", "C05_text_writer_call_shapes"]
+EXTRA_MODULES = ["C05e2e", "C05e2e_text"]
 LEVEL = "other"
 EXPLANATION = ("accepted source documents in both formats (binary: spec-derived encoder with several symbol-table "
                "appends, repeated version markers, padded SIDs; text: spec-derived printer with local symbol tables and $n "
